@@ -4,16 +4,35 @@ of the payload (`Cut`); consequences for the reference reassembly.  The Block2 l
 response sequence whose same-ETag blocks are truthful slices returns the body or fails. -/
 namespace Aiocoap.BwClient
 
-/-- requests of the Block1 phase: those without a Block2 option -/
-def b1Reqs (reqs : List Req) : List Req := reqs.filter (fun r => r.block2.isNone)
+/-- a request of the Block1 phase: it carries no Block2 option, or the application's size hint
+`(0, False, szx)`; the requests of the Block2 loop ask for a block number ≥ 1 (`NoB1.enterB2`) -/
+def isB1Phase (r : Req) : Bool :=
+  match r.block2 with
+  | none => true
+  | some q => q.num == 0
+
+/-- requests of the Block1 phase -/
+def b1Reqs (reqs : List Req) : List Req := reqs.filter isB1Phase
+
+theorem isB1Phase_hint (cfg : Cfg) {r : Req} (h : r.block2 = hintOpt cfg) : isB1Phase r = true := by
+  unfold isB1Phase
+  rw [h]
+  unfold hintOpt
+  cases cfg.hint2 <;> simp
+
+@[simp] theorem isB1Phase_mk_hint (cfg : Cfg) (b1 : Option BlockOpt) (s1 : Option Nat) (pl : Bytes) :
+    isB1Phase { block1 := b1, block2 := hintOpt cfg, size1 := s1, payload := pl } = true :=
+  isB1Phase_hint cfg rfl
 
 /-- phases that emit no Block1-phase request any more -/
 def NoB1 : Phase → Prop
   | .b1 _ _ => False
-  | .b2 _ _ cur => cur.block2.isSome = true
+  | .b2 _ a cur => a.payload ≠ [] ∧ isB1Phase cur = false
   | .done _ => True
 
-theorem NoB1.enterB2 (cfg : Cfg) (t : Req) (a : Asm) : NoB1 (enterB2 cfg t a) := by
+/-- the requests of the Block2 loop ask for the byte offset received so far, which is not 0 -/
+theorem NoB1.enterB2 (cfg : Cfg) (t : Req) (a : Asm) (ha : a.payload ≠ []) :
+    NoB1 (enterB2 cfg t a) := by
   unfold BwClient.enterB2
   cases h : nextBlock2Request cfg.szx0 t a with
   | none => trivial
@@ -21,15 +40,46 @@ theorem NoB1.enterB2 (cfg : Cfg) (t : Req) (a : Asm) : NoB1 (enterB2 cfg t a) :=
     simp only [nextBlock2Request] at h
     split at h
     · cases h
-    · cases h; simp [NoB1]
+    · rename_i hs
+      cases h
+      refine ⟨ha, ?_⟩
+      simp only [isB1Phase, beq_eq_false_iff_ne, ne_eq]
+      intro hq
+      have h0 := BlockOpt.start_eq_zero.mpr hq
+      rw [BlockOpt.reducedTo_start] at h0
+      have hlen : a.payload.length = 0 := by
+        have hs' := Classical.not_not.mp hs
+        rw [← hs']; exact h0
+      exact ha (List.eq_nil_of_length_eq_zero hlen)
+
+theorem payload_ne_nil_of_valid {b : BlockOpt} {pl : Bytes} (hm : b.more = true)
+    (hv : b.validFor pl.length = true) : pl ≠ [] := by
+  intro h
+  have := validFor_more hm hv
+  have hp := b.size_pos
+  rw [h] at this
+  simp at this
+  omega
 
 theorem NoB1.completeBlock2 (cfg : Cfg) (t : Req) (r : Resp) : NoB1 (completeBlock2 cfg t r) := by
   cases hb : r.block2 with
   | none => rw [completeBlock2_none hb]; trivial
   | some b =>
     rw [completeBlock2_some hb]
-    repeat' split
-    all_goals first | trivial | exact NoB1.enterB2 _ _ _
+    by_cases hst : b.start ≠ 0
+    · rw [if_pos hst]; trivial
+    rw [if_neg hst]
+    by_cases hg : szxGrows t b = true
+    · rw [if_pos hg]; trivial
+    rw [if_neg hg]
+    by_cases hm : b.more = true
+    · by_cases hn : b.num ≠ 0
+      · simp [hm, hn, NoB1]
+      · by_cases hv : b.validFor r.payload.length = true
+        · simp only [hm, Bool.not_true, Bool.false_eq_true, ↓reduceIte, hn, hv]
+          exact NoB1.enterB2 _ _ _ (payload_ne_nil_of_valid hm hv)
+        · simp [hm, hn, hv, NoB1]
+    · simp [hm, NoB1]
 
 theorem NoB1.step {cfg : Cfg} {ph : Phase} (h : NoB1 ph) (r : Resp) : NoB1 (step cfg ph r) := by
   cases ph with
@@ -41,7 +91,7 @@ theorem NoB1.step {cfg : Cfg} {ph : Phase} (h : NoB1 ph) (r : Resp) : NoB1 (step
     | some b =>
       rw [step_b2_some hb]
       repeat' split
-      all_goals first | trivial | exact NoB1.enterB2 _ _ _
+      all_goals first | trivial | exact NoB1.enterB2 _ _ _ (by simp [h.1])
 
 theorem NoB1.go {cfg : Cfg} {ph : Phase} (h : NoB1 ph) (rs : List Resp) :
     b1Reqs (go cfg ph rs).1 = [] := by
@@ -51,9 +101,7 @@ theorem NoB1.go {cfg : Cfg} {ph : Phase} (h : NoB1 ph) (rs : List Resp) :
     cases ph with
     | b1 st cur => exact absurd h (by simp [NoB1])
     | done o => rfl
-    | b2 t a cur =>
-      simp only [NoB1] at h
-      cases hc : cur.block2 <;> simp_all [b1Reqs, Phase.outstanding]
+    | b2 t a cur => simp [b1Reqs, Phase.outstanding, h.2]
   | cons r rs ih =>
     rw [go_cons]
     have := ih (h.step (cfg := cfg) r)
@@ -61,9 +109,8 @@ theorem NoB1.go {cfg : Cfg} {ph : Phase} (h : NoB1 ph) (rs : List Resp) :
     | b1 st cur => exact absurd h (by simp [NoB1])
     | done o => simp [b1Reqs, Phase.outstanding]
     | b2 t a cur =>
-      simp only [NoB1] at h
       simp only [b1Reqs] at this
-      cases hc : cur.block2 <;> simp_all [b1Reqs, Phase.outstanding]
+      simp [b1Reqs, Phase.outstanding, h.2, this]
 
 /-- what can follow a Block1 round: either the Block1 phase is over, or a non-final block was
 sent and the loop continues from the (reduced) next state -/
@@ -78,7 +125,9 @@ theorem step_b1_cases (cfg : Cfg) (st : B1State) (cur : Req) (r : Resp) :
     rw [step_b1_none ha]
     split
     · trivial
-    · exact NoB1.completeBlock2 _ _ _
+    · split
+      · trivial
+      · exact NoB1.completeBlock2 _ _ _
   | some a =>
     rw [step_b1_some ha]
     by_cases hnum : a.num ≠ (sentBlock1 st cur).num
@@ -99,21 +148,22 @@ theorem step_b1_cases (cfg : Cfg) (st : B1State) (cur : Req) (r : Resp) :
         · exact NoB1.completeBlock2 _ _ _
 
 /-- `reqs` cuts `p` in order starting at byte `off`, with size exponents bounded by `s` and
-never growing: each request carries `p[off, off + size)`, is numbered `off / size`, has the more
+never growing: each request carries the Block2 option `hb` of the application's request and
+`p[off, off + size)`, is numbered `off / size`, has the more
 flag iff bytes remain after it, and nothing follows a block without the more flag. -/
-inductive Cut (p : Bytes) : Nat → Nat → List Req → Prop
-  | nil (off s : Nat) : Cut p off s []
-  | whole (s : Nat) : Cut p 0 s [{ block1 := none, block2 := none, size1 := none, payload := p }]
+inductive Cut (p : Bytes) (hb : Option BlockOpt) : Nat → Nat → List Req → Prop
+  | nil (off s : Nat) : Cut p hb off s []
+  | whole (s : Nat) : Cut p hb 0 s [{ block1 := none, block2 := hb, size1 := none, payload := p }]
   | block {off s : Nat} {b : BlockOpt} {sz1 : Option Nat} {rest : List Req} :
       b.szx ≤ s → b.szx ≤ 6 → b.num * blockSize b.szx = off → off < p.length →
       (b.more = true ↔ off + blockSize b.szx < p.length) →
       (b.more = false → rest = []) →
-      Cut p (off + blockSize b.szx) b.szx rest →
-      Cut p off s ({ block1 := some b, block2 := none, size1 := sz1,
-                     payload := (p.drop off).take (blockSize b.szx) } :: rest)
+      Cut p hb (off + blockSize b.szx) b.szx rest →
+      Cut p hb off s ({ block1 := some b, block2 := hb, size1 := sz1,
+                        payload := (p.drop off).take (blockSize b.szx) } :: rest)
 
-theorem Cut.weaken {p : Bytes} {off s s' : Nat} {reqs : List Req} (h : Cut p off s reqs)
-    (hs : s ≤ s') : Cut p off s' reqs := by
+theorem Cut.weaken {p : Bytes} {off s s' : Nat} {hb : Option BlockOpt} {reqs : List Req} (h : Cut p hb off s reqs)
+    (hs : s ≤ s') : Cut p hb off s' reqs := by
   cases h with
   | nil => exact Cut.nil _ _
   | whole => exact Cut.whole _
@@ -122,7 +172,7 @@ theorem Cut.weaken {p : Bytes} {off s s' : Nat} {reqs : List Req} (h : Cut p off
 /-- **The Block1 requests emitted against any response sequence are an in-order cut.** -/
 theorem cut_go {cfg : Cfg} {st : B1State} {cur : Req} (hinv : B1Inv cfg st)
     (hcur : nextRequest cfg st = some cur) (rs : List Resp) :
-    Cut cfg.payload (st.cursor * blockSize st.szx) st.szx (b1Reqs (go cfg (.b1 st cur) rs).1) := by
+    Cut cfg.payload (hintOpt cfg) (st.cursor * blockSize st.szx) st.szx (b1Reqs (go cfg (.b1 st cur) rs).1) := by
   induction rs generalizing st cur with
   | nil =>
     rw [go_nil]
@@ -130,14 +180,14 @@ theorem cut_go {cfg : Cfg} {st : B1State} {cur : Req} (hinv : B1Inv cfg st)
     by_cases hf : cfg.payload.length > threshold cfg st.szx
     · simp only [hf, ↓reduceIte, Option.some.injEq] at hcur
       subst hcur
-      simp only [Phase.outstanding, Option.toList_some, b1Reqs, List.filter_cons, Option.isNone_none,
+      simp only [Phase.outstanding, Option.toList_some, b1Reqs, List.filter_cons, isB1Phase_mk_hint,
         ↓reduceIte, List.filter_nil]
       exact Cut.block (Nat.le_refl _) hinv.szx_le rfl (hinv.inside hf) (by simp) (fun _ => rfl)
         (Cut.nil _ _)
     · simp only [hf, ↓reduceIte, Option.some.injEq] at hcur
       subst hcur
       rw [hinv.whole hf]
-      simp only [Phase.outstanding, Option.toList_some, b1Reqs, List.filter_cons, Option.isNone_none,
+      simp only [Phase.outstanding, Option.toList_some, b1Reqs, List.filter_cons, isB1Phase_mk_hint,
         ↓reduceIte, List.filter_nil, Nat.zero_mul]
       exact Cut.whole _
   | cons r rs ih =>
@@ -153,7 +203,7 @@ theorem cut_go {cfg : Cfg} {st : B1State} {cur : Req} (hinv : B1Inv cfg st)
       simp only [decide_eq_true_eq] at hcases
       subst hcur
       simp only [Phase.outstanding, Option.toList_some, b1Reqs, List.cons_append, List.nil_append,
-        List.filter_cons, Option.isNone_none, ↓reduceIte]
+        List.filter_cons, isB1Phase_mk_hint, ↓reduceIte]
       refine Cut.block (Nat.le_refl _) hinv.szx_le rfl (hinv.inside hf) (by simp) ?_ ?_
       · intro hm
         simp only [decide_eq_false_iff_not] at hm
@@ -176,7 +226,7 @@ theorem cut_go {cfg : Cfg} {st : B1State} {cur : Req} (hinv : B1Inv cfg st)
       rw [hsent] at hcases
       subst hcur
       simp only [Phase.outstanding, Option.toList_some, b1Reqs, List.cons_append, List.nil_append,
-        List.filter_cons, Option.isNone_none, ↓reduceIte]
+        List.filter_cons, isB1Phase_mk_hint, ↓reduceIte]
       rcases hcases with h | ⟨h, _⟩
       · have := h.go (cfg := cfg) rs
         simp only [b1Reqs] at this
@@ -192,7 +242,7 @@ theorem take_append_slice (p : Bytes) (off n : Nat) :
 
 /-- the reference reassembly of a cut is a prefix of the payload that reaches at least to the
 end of the last block -/
-theorem Cut.reassemble {p : Bytes} {off s : Nat} {reqs : List Req} (h : Cut p off s reqs)
+theorem Cut.reassemble {p : Bytes} {off s : Nat} {hb : Option BlockOpt} {reqs : List Req} (h : Cut p hb off s reqs)
     (hoff : off ≤ p.length) :
     ∃ k, reassemble.goR (p.take off) reqs = some (p.take k) ∧ off ≤ k := by
   induction h with
@@ -221,7 +271,7 @@ theorem Cut.reassemble {p : Bytes} {off s : Nat} {reqs : List Req} (h : Cut p of
 def FinalReq (r : Req) : Prop := r.block1 = none ∨ ∃ b, r.block1 = some b ∧ b.more = false
 
 /-- once the final block is among the requests, the reference reassembly is the whole payload -/
-theorem Cut.reassemble_final {p : Bytes} {off s : Nat} {reqs : List Req} (h : Cut p off s reqs)
+theorem Cut.reassemble_final {p : Bytes} {off s : Nat} {hb : Option BlockOpt} {reqs : List Req} (h : Cut p hb off s reqs)
     (hoff : off ≤ p.length) (hfin : ∃ r ∈ reqs, FinalReq r) :
     reassemble.goR (p.take off) reqs = some p := by
   induction h with
@@ -256,7 +306,7 @@ theorem Cut.reassemble_final {p : Bytes} {off s : Nat} {reqs : List Req} (h : Cu
       rw [List.take_of_length_le (by omega)]
 
 /-- nothing follows the final request -/
-theorem Cut.final_last {p : Bytes} {off s : Nat} {reqs : List Req} (h : Cut p off s reqs) :
+theorem Cut.final_last {p : Bytes} {off s : Nat} {hb : Option BlockOpt} {reqs : List Req} (h : Cut p hb off s reqs) :
     ∀ (pre : List Req) (r : Req) (post : List Req), reqs = pre ++ r :: post → FinalReq r → post = [] := by
   induction h with
   | nil off s => intro pre r post he; cases pre <;> cases he
@@ -283,7 +333,7 @@ theorem Cut.final_last {p : Bytes} {off s : Nat} {reqs : List Req} (h : Cut p of
 
 /-- every Block1 request of a cut: exponent bounded, carries exactly `payload[start, start+size)`,
 the more flag is set iff bytes remain behind the block -/
-theorem Cut.each {p : Bytes} {off s : Nat} {reqs : List Req} (h : Cut p off s reqs) :
+theorem Cut.each {p : Bytes} {off s : Nat} {hb : Option BlockOpt} {reqs : List Req} (h : Cut p hb off s reqs) :
     ∀ r ∈ reqs, ∀ b, r.block1 = some b →
       b.szx ≤ s ∧ b.szx ≤ 6 ∧ off ≤ b.start ∧ b.start < p.length ∧
       r.payload = (p.drop b.start).take b.size ∧
@@ -303,7 +353,7 @@ theorem Cut.each {p : Bytes} {off s : Nat} {reqs : List Req} (h : Cut p off s re
       exact ⟨by omega, a2, by omega, a4, a5, a6⟩
 
 /-- size exponents never grow along a cut -/
-theorem Cut.pairwise {p : Bytes} {off s : Nat} {reqs : List Req} (h : Cut p off s reqs) :
+theorem Cut.pairwise {p : Bytes} {off s : Nat} {hb : Option BlockOpt} {reqs : List Req} (h : Cut p hb off s reqs) :
     List.Pairwise (fun a b : BlockOpt => b.szx ≤ a.szx) (reqs.filterMap (·.block1)) := by
   induction h with
   | nil => simp
@@ -316,7 +366,7 @@ theorem Cut.pairwise {p : Bytes} {off s : Nat} {reqs : List Req} (h : Cut p off 
     exact (h7.each r hr b hrb).1
 
 /-- offsets strictly increase along a cut: no block is sent twice -/
-theorem Cut.starts {p : Bytes} {off s : Nat} {reqs : List Req} (h : Cut p off s reqs) :
+theorem Cut.starts {p : Bytes} {off s : Nat} {hb : Option BlockOpt} {reqs : List Req} (h : Cut p hb off s reqs) :
     List.Pairwise (fun a b : BlockOpt => a.start + a.size ≤ b.start) (reqs.filterMap (·.block1)) := by
   induction h with
   | nil => simp
@@ -432,6 +482,9 @@ theorem completeBlock2_ok_is_body (cfg : Cfg) (t : Req) (body : Bytes) (initial 
   have hnum : b.num = 0 := BlockOpt.start_eq_zero.mp hst'
   rw [hst', List.drop_zero] at hpay
   rw [hst', Nat.zero_add] at hmore
+  by_cases hg : szxGrows t b = true
+  · simp [hg] at h
+  rw [if_neg hg] at h
   by_cases hm : b.more = true
   · have hlt := hmore.mp hm
     by_cases hv : b.validFor initial.payload.length = true
